@@ -1,6 +1,7 @@
 package worker
 
 import (
+	"strings"
 	"errors"
 	"io"
 	"net/http"
@@ -344,6 +345,11 @@ func (tr *simTransport) RoundTrip(req *http.Request) (*http.Response, error) {
 	}
 	if np.CType != nil {
 		hdr.Set("Content-Type", *np.CType)
+	}
+	for _, h := range np.Headers {
+		if h[0] != "" && !strings.EqualFold(h[0], "Content-Type") && !strings.EqualFold(h[0], "Content-Length") && !strings.EqualFold(h[0], "Location") {
+			hdr.Add(h[0], h[1])
+		}
 	}
 	data := tr.world.docs[op.Doc]
 	bodyPlan := np.Body
